@@ -9,6 +9,10 @@ for k in 1 2 3; do
   cp $src/patch.diff $src/meta.json $dst/; cp $src/demo*.go $dst/ 2>/dev/null; cp $src/*.go $dst/ 2>/dev/null
   # which package does the demo go in? header comment or the patch's directory
   pkg=$PKG
+  demo=$(ls $dst/demo*_test.go 2>/dev/null | head -1)
+  for cand in server rpc internal/packed encoding/text pogs; do
+    if grep -q "\./$cand" "$demo" 2>/dev/null; then pkg=$cand; break; fi
+  done
   conf=$(/verif/seeded/confirm.sh $dst $pkg 2>&1 | tail -1)
   res=$(/verif/tools/mutest.sh $dst $ID 2>&1 | tail -1 | cut -c1-200)
   python3 - "$dst" "$conf" "$res" "$P-$k" <<'PY'
